@@ -148,10 +148,10 @@ TRecv ==
 TStart == Is("s.start") /\ SrvHandle /\ smsg.t = "ws" /\ smsg.r = R /\ step'[R] = "run"
 TSignal == Is("s.signal") /\ SrvHandle /\ smsg.t = "sig" /\ smsg.r = R /\ sigg'[R] = "run"
 \* the server's input is closed: by the run loop on client-done (SrvHandle), or by the closure handler
-\* after a fatal error (already part of HWritten: confirmation only)
+\* after a fatal error (HCloseStdin; when the input is closed already the second close has no event and is silent)
 TStdinClose ==
     /\ Is("t.c2s.rclose")
-    /\ IF Ev.k = "srvloop" THEN SrvHandle /\ smsg.t = "cd" ELSE stdinClosed /\ UNCHANGED vars
+    /\ IF Ev.k = "srvloop" THEN SrvHandle /\ smsg.t = "cd" ELSE HCloseStdin
 
 \* Channel operations on workDone are lock-free: the hook fires after the operation, so another
 \* goroutine can observe (and log) its effect first.  They are therefore silent steps of the trace
@@ -165,6 +165,7 @@ Silent ==
        \/ (spc = "handle" /\ smsg.t \notin {"ws", "cd"} /\ ~(smsg.t = "sig" /\ smsg.r \in Runs /\ accepted[smsg.r] > 0) /\ SrvHandle)
        \/ SrvRunExit \/ SrvLateClose
        \/ HRecv
+       \/ (stdinClosed /\ HCloseStdin)
        \/ CloseCancel
     /\ crashed' = "no"
 TErrq ==
